@@ -461,6 +461,23 @@ fn run_inner(w: &mut World, s: &HistScenario) -> RunOut {
             Op::Validate { times } => {
                 observe_times = (*times).max(1);
             }
+            Op::RemoveAbsentMany { n } => {
+                let n = *n;
+                let p = callers.exec(st.caller, move || {
+                    policy.install(step_no);
+                    let mut parser = parser;
+                    let id = PathBuf::from("never/added/by/anyone.aidl");
+                    for _ in 0..n {
+                        parser.remove_content(id.clone());
+                    }
+                    parser
+                });
+                parser = p;
+                mutations_since_obs += 1;
+                if n >= 65000 {
+                    w.count("probe_65536_mutations_between_validations");
+                }
+            }
             Op::Warmup { n } => {
                 let n = *n;
                 callers.exec(st.caller, move || {
@@ -485,6 +502,9 @@ fn run_inner(w: &mut World, s: &HistScenario) -> RunOut {
                 bytes.extend_from_slice(tail.as_slice());
                 if let Some(dir) = &w.scratch {
                     let real = format!("{dir}/{}", disk_slot(path).trim_start_matches('/'));
+                    if let Some(parent) = Path::new(&real).parent() {
+                        let _ = std::fs::create_dir_all(parent);
+                    }
                     if std::fs::write(&real, &bytes).is_err() {
                         w.count("harness_scratch_write_failed");
                     }
@@ -1178,8 +1198,8 @@ fn check_c13(
     // Note: in very large projects only every n-th file gets a stub project per observation
     let stride = (facts.len() + 59) / 60;
     for (idx, (k, (text, f))) in facts.iter().enumerate() {
-        if stride > 1 && idx % stride != (si % stride) {
-            continue;
+        if stride > 1 && idx % stride != (si % stride) && isos[k].imports.len() < 100 {
+            continue; // (files that import very much are always checked)
         }
         // Note: files without a tree are checked too (their stub project is the file alone)
         let cache_key = (text.clone(), f.clone() + &format!("{:?}", others[k]));
